@@ -1,13 +1,14 @@
 SPECIFICATION Spec
-CONSTANTS Coef <- C2
+CONSTANTS Coef <- C3
  Pairs <- P2
  SumPairs <- SP1
- Bnd <- B1
+ Bnd <- B2
  MaxD = 2
- MaxSteps = 2
+ MaxSteps = 3
  SubA <- A2
- SubB <- S1
+ SubB <- S2
 INVARIANT SameValueInv
+INVARIANT SameValueOp
 INVARIANT TwoEvaluators
 INVARIANT SimplifyIdempotent
 POSTCONDITION Emit
